@@ -26,8 +26,6 @@ def conf_watcher(w, sig, new=NEW):
 
 
 def declare(spec):
-    spec.Class('PsProc', fields={'pid': INT})
-    spec.classes['Process'].fields['_worker'] = Ref('PsProc')
     # class invariant: a Process object always has its psutil handle (created by Process.spawn, called from
     # __init__, the only writer: frame-scan worker-writers; Process.pid is the property `self._worker.pid`)
     spec.nonnull.add(('Process', '_worker'))
